@@ -269,7 +269,7 @@ const TAG_POOL: [&str; 8] = [
     "synonym: \"Other name\" EXACT layperson []",
     "xref: UMLS:C0000001",
     "alt_id: HP:9999998",
-    "comment: A comment: is_a: HP:0000001 ! not a parent",
+    "comment: A comment: is_a: HP:9999997 ! not a parent",
     "subset: hposlim_core",
     "created_by: name: id: 5",
     "property_value: http://purl.org/dc/elements/1.1/date 2020-01-01T00:00:00Z xsd:dateTime",
